@@ -1825,7 +1825,8 @@ class Table(Vector):
 					if n <= 1:
 						return None
 					mean_val = sum(clean) / n
-					variance = sum((v - mean_val) ** 2 for v in clean) / (n - 1)
+					# (d * d, like Vector.stdev: d ** 2 goes through pow() and can differ in the last bit)
+					variance = sum((v - mean_val) * (v - mean_val) for v in clean) / (n - 1)
 					return variance ** 0.5
 				
 				aggregate_col(col, stdev_func, "stdev")
@@ -2079,7 +2080,7 @@ class Table(Vector):
 					if n <= 1:
 						return None
 					mean_val = sum(clean) / n
-					return (sum((v - mean_val)**2 for v in clean) / (n - 1)) ** 0.5
+					return (sum((v - mean_val) * (v - mean_val) for v in clean) / (n - 1)) ** 0.5
 				
 				gm = compute_group_values(col, fn)
 				result_cols.append(
